@@ -366,6 +366,14 @@ def c07_2(ck, prog):
     lib.must_precede(fn, r, lambda ev, ctx: 'tokenize_rule' if ev['ev'] == 'call'
                      and ev['e'].get('callee') == 'tokenize_rule' else None, [])
     lim = prog.macro_int('DBUS_MAXIMUM_MATCH_RULE_LENGTH')
+    # the two limits the parser compares with are the specification's
+    for mac, want in (('DBUS_MAXIMUM_MATCH_RULE_LENGTH', 1024), ('DBUS_MAXIMUM_MATCH_RULE_ARG_NUMBER', 63)):
+        got = prog.macro_int(mac)
+        if got == want:
+            r.ok('spec:' + mac, {'value': want})
+        else:
+            r.violation('spec:' + mac, 'dbus-protocol.h', 'dbus/dbus-protocol.h', None,
+                        '%s is %s, specification: %d' % (mac, got, want))
     oklen = False
     for bid, blk in fn.blocks.items():
         t = blk.get('term')
